@@ -113,7 +113,7 @@ CLAIMED = {
 UPDATES = {
  "C03": (" Spatial micro-specs: one Container fanout with one loop_bounds constraint, and two fanout levels on memories that bound the same rank variable; clauses fanout (product of spatial iterations <= fanout) and bounds (comparison holds on the iteration count of the named rank variables, an absent loop counting as 1).",
          "Fused-loop limits are not exercised (single Einsum). Constraint forms on which the unchanged mapper crashes (per-variable >=, >, <, ==/<= with value > 1 on a Container fanout) are excluded from the generator; spatial loops are executed like temporal loops (their access counts are not modelled)."),
- "C01": (" Mid part: on 3-level memory-bound / leaky worlds beyond Mapspace.tla's reach every perfectly factorising assignment of every template make_pmappings generates is executed and priced by TLC (LoopNest via Trace_Mapping) and Fronts.tla decides whether one beats the mapper's optimum (EDP in both tiers; ENERGY and LATENCY too with C01_MID_ALL=1).", None),
+ "C01": (" Mid part: on 3-level memory-bound / leaky worlds beyond Mapspace.tla's reach every perfectly factorising assignment of every template make_pmappings generates is executed and priced by TLC (LoopNest via Trace_Mapping) and Fronts.tla decides whether one beats the mapper's optimum (quick: EDP; thorough: ENERGY, LATENCY, EDP).", None),
  "C02": (" Chain part: the non-dominance and no-duplicate clauses are decided by Fronts.tla on the fronts the mapper returns for 2- and 3-matmul chains (fused mapspace; completeness there is C13 / C14's).", None),
  "C04": (" Rows of the two runs are the same mappings in the same order and are paired by index.", None),
  "C06": (" Persistent holders and n_instances are constructed by MC_LoopNest. Fused trees: FusedNest.tla (one split) and FusedTree.tla (nested splits) state the occupancy of a multi-Einsum tree (per-Einsum views, tile liveness from first to last use); every tree the mapper returns on 2- and 3-Einsum chains with RESOURCE_USAGE as objective must report usage*size = PeakF / PeakT exactly. Persistent part: concrete fused mappings with persistent weights (one shared by both Einsums, or one each) and n_instances 1..3 are evaluated by the real model and compared with FusedTree's peak (a persistent tile exists once per workload instance and stays resident for the whole workload).",
